@@ -270,6 +270,40 @@ pub fn run_case(case: &mut Case) {
         ) {
             let class = format!("single:{}", kind);
             b.expect_value(case, &line.argv, &d.value, &class, "alternative");
+            // (1'): a flag of the line moved between the name of an argument and its value: the
+            // name is left without a value, whoever owns the flag
+            let names: Vec<usize> = (0..line.argv.len().saturating_sub(1))
+                .filter(|&i| {
+                    line.origin[i].role == Role::ArgName
+                        && line.origin[i + 1].role == Role::ArgValue
+                        && !line.origin[i].after_dd
+                })
+                .collect();
+            let flags: Vec<usize> = (0..line.argv.len())
+                .filter(|&i| {
+                    line.origin[i].role == Role::Flag
+                        && !line.origin[i].after_dd
+                        && line.origin[i].block.is_none()
+                })
+                .collect();
+            if !names.is_empty() && !flags.is_empty() {
+                let ni = *rng.pick(&names);
+                let fi = *rng.pick(&flags);
+                if line.origin[ni].block.is_none() {
+                    let mut argv = line.argv.clone();
+                    let f = argv.remove(fi);
+                    let at = if fi < ni { ni } else { ni + 1 };
+                    argv.insert(at, f);
+                    let class = format!("mixed:flag-between-name-and-value:{}", kind);
+                    b.expect_stderr(
+                        case,
+                        &argv,
+                        &class,
+                        &format!("mixed-alternatives:flag-between-name-and-value:{}", kind),
+                        "a flag written between the name of an argument and its value",
+                    );
+                }
+            }
             if di == 0 {
                 case.rep.sample(
                     case_json(&b.spec, &line.argv)
